@@ -58,7 +58,7 @@ Definition unhex (b : Z) : option Z :=
   else None.
 
 (* the loop of the \u{...} case (serde.go:194): [s] starts after the brace,
-   [k] = hex digits still admitted (7 at the start: j <= 7), [v] the value so
+   [k] = hex digits still allowed (7 at the start: j <= 7), [v] the value so
    far, [n] bytes consumed so far. Some (value, bytes consumed including the
    closing brace). Running off the end of the text is an error (serde.go after
    fix N12a; an index panic before it - the lexer never lets such a text
